@@ -42,13 +42,15 @@ enum Cmd { Next, Finish, NextCancelled }
 
 pub fn response_bytes(mid: i64, kind: &str, tok: u64) -> Vec<u8> {
     let t = tok.to_string();
+    // every third message is longer than 127 bytes, so that its outer length is in the long form (a read may then end inside the header)
+    let big = tok % 3 == 0; let pad = vec![b'x'; 150];
     let op = match kind {
-        "e" => entry(format!("t{}", tok).as_bytes(), &[(b"cn", vec![b"v".to_vec()])]),
-        "r" => c(TagClass::Application, 19, vec![octets(format!("ldap://t{}", tok).as_bytes())]),
-        "i" => c(TagClass::Application, 25, vec![p(TagClass::Context, 0, b"1.2.3"), p(TagClass::Context, 1, t.as_bytes())]),
-        "d" => ldap_result(5, 0, b"", t.as_bytes(), None),
-        "o" => ldap_result(7, 0, b"", t.as_bytes(), None),
-        _ => ldap_result(11, 0, b"", t.as_bytes(), None),
+        "e" => if big { entry(format!("t{}", tok).as_bytes(), &[(b"cn", vec![b"v".to_vec()]), (b"description", vec![pad.clone()])]) } else { entry(format!("t{}", tok).as_bytes(), &[(b"cn", vec![b"v".to_vec()])]) },
+        "r" => c(TagClass::Application, 19, if big { vec![octets(format!("ldap://t{}", tok).as_bytes()), octets(&pad)] } else { vec![octets(format!("ldap://t{}", tok).as_bytes())] }),
+        "i" => c(TagClass::Application, 25, vec![p(TagClass::Context, 0, if big { &pad[..] } else { b"1.2.3" }), p(TagClass::Context, 1, t.as_bytes())]),
+        "d" => ldap_result(5, 0, if big { &pad[..] } else { b"" }, t.as_bytes(), None),
+        "o" => ldap_result(7, 0, if big { &pad[..] } else { b"" }, t.as_bytes(), None),
+        _ => ldap_result(11, 0, if big { &pad[..] } else { b"" }, t.as_bytes(), None),
     };
     let mut e = vec![]; ownber::write(&message(mid, op, None), &mut e, &mut |_| 0); e
 }
@@ -170,8 +172,9 @@ async fn run_script(steps: Vec<String>) -> (String, Option<String>) {
                 if f[0] == "B" { partial_sent = true; }
                 if server_open {
                     if f[0] == "R" { sent_by_id.entry(mid).or_default().push(tokn); }
-                    // deliver in two writes to exercise the framing path as well
-                    let cut = n / 3;
+                    // deliver in two writes to exercise the framing path as well: the cut is after 1, 2 or 3 bytes (inside the header of a long
+                    // message), a third of the way in, or before the last byte
+                    let cut = [n / 3, 1, 2, 3, n.saturating_sub(1)][(tokn % 5) as usize].min(n);
                     let _ = server.write_all(&bytes[..cut]).await; for _ in 0..20 { tokio::task::yield_now().await; }
                     let _ = server.write_all(&bytes[cut..n]).await;
                 }
@@ -333,7 +336,7 @@ pub fn gen_faults(rng: &mut Rng, n: usize, out: &mut Vec<String>) {
     ];
     let mut count = 0;
     let mut raw: Vec<Vec<u8>> = vec![];
-    for (mid, k) in [(1i64, "x"), (2, "e"), (2, "d"), (1, "r"), (3, "i"), (0, "x")] { raw.extend(crate::lanes::frame::header_cuts(&response_bytes(mid, k, 9))); }
+    for (mid, k) in [(1i64, "x"), (2, "e"), (2, "d"), (1, "r"), (3, "i"), (0, "x")] { raw.extend(crate::lanes::frame::header_cuts(&response_bytes(mid, k, 10))); }
     'outer: for ex in &exchanges {
         for cut in 0..=ex.len() {
             let mut faults: Vec<String> = ["X:eof", "X:garbage", "X:rderr", "X:wrerr S:single:-", "B:1:e:9 X:eof", "B:1:x:9 X:rderr", "H", "S:unbind:-"].iter().map(|x| x.to_string()).collect();
